@@ -63,8 +63,8 @@ class Package:
     def by_type(self, full_name: str):
         return [o for o in self.objects.values() if o.type_name == full_name]
 
-    def rebuild_member(self, name: str, sizes=None, compress=True) -> None:
-        self.container.members[name] = iwa.frame(iwa.build_stream(self.streams[name]), sizes, compress)
+    def rebuild_member(self, name: str, sizes=None, compress=True, max_chunk=iwa.MAX_CHUNK) -> None:
+        self.container.members[name] = iwa.frame(iwa.build_stream(self.streams[name]), sizes, compress, max_chunk)
 
     # ---- convenient navigation ------------------------------------------------------------------
     def metadata(self):
